@@ -196,6 +196,8 @@ def run(ctx: Ctx) -> int:
                "_process_ept_map_result as the stub of a dpapi_ng._rpc.Response exactly as RpcClient.request returns it")
     ctx.assume("replies are rendered by the specification (EptMapResultBytes, NDR64 padding -(len+4) mod 8); TraceEpm re-checks that the bytes "
                "given to the code are that rendering")
+    from .. import faultsim
+    faultsim.check(ctx, "C18")   # the same statement through the public API: peer faults at every step of the online conversation (OnlineFaults.tla)
     return ctx.finish(
         rule="replies = every TLC-emitted (tower list, announced count variant, status) of MC_Epm (BFS + simulation of 4..6 towers) plus "
              "random / mutated / structured byte strings up to 65535 bytes; each processed by the real _process_ept_map_result under step meter "
